@@ -27,6 +27,12 @@ func (pass *FilterSchemas) processSchema(schema *ast.Schema, allowList *orderedm
 		return allowList.Has(object.SelfRef.String())
 	})
 
+	// the entry point can not designate an object that was filtered out
+	if schema.EntryPoint != "" && !schema.HasObject(schema.EntryPoint) {
+		schema.EntryPoint = ""
+		schema.EntryPointType = ast.Type{}
+	}
+
 	return schema
 }
 
